@@ -14,6 +14,7 @@ def parseEv (j : Json) : R Ev := do
   | "http" => return .http (getBoolD j "start" false) (getStrD j "id" "") (getBoolD j "fin" false) (← natList (← getObj j "ents"))
   | "jobStart" => return .jobStart
   | "jobBatch" => return .jobBatch (← natList (← getObj j "ents"))
+  | "txn" => return .jobBatch (← natList (← getObj j "ents"))   -- a transaction write goes through the same write loop
   | "jobEnd" => return .jobEnd
   | "expire" => return .expire
   | _ => throw s!"bad event {e}"
